@@ -139,7 +139,7 @@ pub fn universe(logs: &[&[(Op, Resp)]], max_height: u64, w: Option<&World>) -> U
             u.add_slot_u64(*s);
         }
         let mut b = 0x1000u64;
-        while b <= w.probe_base && b < 0x1000 + 0x20 * 6 {
+        while b <= w.probe_base && b < 0x1000 + 0x20 * 14 {
             for k in 0..15 {
                 u.add_slot_u64(b + k);
             }
